@@ -280,6 +280,18 @@ fn parallel_first_touch(obs: &mut Obs, thorough: bool) -> Res {
     Ok(())
 }
 
+/// long lists of records under everyday queries (see `gen::gen_long_records`)
+fn random_long_record_lists(src: &mut Src, obs: &mut Obs) -> Res {
+    // (every selected node is queried back: lists of up to 300 records here, the longer ones in C01 / C02)
+    let (doc, text) = gen_long_records_capped(src, 300);
+    let q = match crate::recog::parse_ast(&text) {
+        Some(q) => q,
+        None => return Err(Failure::new("harness inconsistency: the long-list family produced a query outside the recogniser's language", json!({"query": text}))),
+    };
+    obs.label("long-record-list");
+    check(&q, &text, &doc, obs)
+}
+
 fn direct(case: &Value, obs: &mut Obs) -> Res {
     let (q, text, doc) = parse_direct(case)?;
     check(&q, &text, &doc, obs)
@@ -302,6 +314,7 @@ pub fn prop() -> Prop {
             Sub { name: "parallel-first-touch", kind: Kind::Exhaustive(parallel_first_touch) },
             Sub { name: "large-flat-paths", kind: Kind::Exhaustive(crate::props::c01::large_flat) },
             Sub { name: "random-routes", kind: Kind::Random { f: random_routes, quick: 200_000, thorough: 4_000_000, len: 400 } },
+            Sub { name: "random-long-record-lists", kind: Kind::Random { f: random_long_record_lists, quick: 800, thorough: 16_000, len: 3000 } },
             Sub { name: "random-record-filters", kind: Kind::Random { f: random_record_filters, quick: 60_000, thorough: 1_200_000, len: 200 } },
             Sub { name: "random-all-nodes", kind: Kind::Random { f: random_all_nodes, quick: 50_000, thorough: 1_000_000, len: 300 } },
         ],
